@@ -14,7 +14,7 @@ func init() {
 	register(&Check{
 		ID:    "C20",
 		Level: "exploration",
-		Rule: "(1) one real directory holding a regular file for EVERY name of <= 3 (thorough 4) chars over {a,b,.} (except . and ..) and two sub-directories whose names also match, x EVERY pattern of <= 4 (thorough 5) chars over {a,b,.,*} with at most 3 stars; (2) a real tree of depth 3 whose directory and file names range over {a,b,ab,ba} x every pattern of 1-3 segments over directory segments {a,b,ab,a*,*b,*a*,b*} and file segments {a,b,ab,a*,*b,a*b,*a*,*,**}, relative and absolute; " +
+		Rule: "(1) one real directory holding a regular file for EVERY name of <= 4 (thorough 5) chars over {a,b,.} (except . and ..) and two sub-directories whose names also match, x EVERY pattern of <= 5 (thorough 6) chars over {a,b,.,*} with at most 3 stars; (2) a real tree of depth 3 whose directory and file names range over {a,b,ab,ba} x every pattern of 1-3 segments over directory segments {a,b,ab,a*,*b,*a*,b*} and file segments {a,b,ab,a*,*b,a*b,*a*,*,**}, relative and absolute; " +
 			"oracle: a reference matcher (`*` = any run within a segment, segments matched one to one) applied to a walk of the tree; the returned list must equal it as a set, without duplicates and without directories; non-trivial = distinct (pattern,tree) pairs whose expected set is non-empty and not everything",
 		Assume: []string{"directory segments made only of stars and `.`/`..` segments are excluded, as the property says"},
 		Budget: map[string]int{"quick": 120, "thorough": 900},
@@ -143,7 +143,7 @@ func runC20(c *Ctx) {
 	flat := filepath.Join(root, "flat")
 	os.Mkdir(flat, 0o755)
 	var names []string
-	for _, n := range texts("ab.", c.Pick(3, 4)) {
+	for _, n := range texts("ab.", c.Pick(4, 5)) {
 		if n == "" || n == "." || n == ".." {
 			continue
 		}
@@ -155,7 +155,7 @@ func runC20(c *Ctx) {
 	os.WriteFile(filepath.Join(flat, "abd", "a"), []byte("x"), 0o644)
 	sort.Strings(names)
 	if c.Level("flat") {
-		for _, pat := range texts("ab.*", c.Pick(4, 5)) {
+		for _, pat := range texts("ab.*", c.Pick(5, 6)) {
 			pat := pat
 			if pat == "" || pat == "." || pat == ".." || strings.Count(pat, "*") > 3 {
 				continue
